@@ -440,3 +440,23 @@ Q_FRAME(this)
 __CPROVER_ensures(WF_Q_POST(this) && Q_SAME_VIEW(this))
 __CPROVER_ensures(!ST_OK(__CPROVER_return_value) || this->_queueSize >= QN(this) + numExtraSlots)
 ;
+
+/* SwapContents(that): the two sequences change places (inline/inline, inline/heap, heap/inline, heap/heap, empty storage included) */
+void Queue_int__SwapContents(QI *this, QI *that)
+__CPROVER_requires(WF_Q_PRE(this) && WF_Q(that) && that->_queueSize <= MV_QCAP && (mv_k >= QN(that) || Q_AT(that, mv_k) == mv_vj))
+__CPROVER_assigns(__CPROVER_object_whole(this), __CPROVER_object_whole(that))
+__CPROVER_assigns(this->_queue != (int *)0: __CPROVER_object_whole(this->_queue)) __CPROVER_assigns(that->_queue != (int *)0: __CPROVER_object_whole(that->_queue))
+__CPROVER_frees(this->_queue, that->_queue)
+__CPROVER_ensures(WF_Q_POST(this) && WF_Q_POST(that))
+__CPROVER_ensures(QN(this) == __CPROVER_old(QN(that)) && QN(that) == __CPROVER_old(QN(this)))
+__CPROVER_ensures((mv_k >= QN(this) || Q_AT(this, mv_k) == mv_vj) && (mv_k >= QN(that) || Q_AT(that, mv_k) == mv_v0))
+;
+
+/* operator=(const Queue &): afterwards this is a copy of rhs (or, if the allocation failed, unchanged); rhs is not modified */
+QI *Queue_int__assign(QI *this, QI *rhs)
+__CPROVER_requires(WF_Q_PRE(this) && WF_Q(rhs) && rhs->_queueSize <= MV_QCAP && (mv_k >= QN(rhs) || Q_AT(rhs, mv_k) == mv_vj))
+Q_FRAME(this)
+__CPROVER_ensures(__CPROVER_return_value == this && WF_Q_POST(this))
+__CPROVER_ensures((QN(this) == QN(rhs) && (mv_k >= QN(this) || Q_AT(this, mv_k) == mv_vj)) || (QN(rhs) > 0 && Q_SAME_VIEW(this)))
+__CPROVER_ensures(QN(rhs) == __CPROVER_old(QN(rhs)) && (mv_k >= QN(rhs) || Q_AT(rhs, mv_k) == mv_vj))
+;
